@@ -30,14 +30,14 @@ def aux_events(seed):
         w = W.World(runs.bdir(), seed=seed, tag="ax%d" % seed)
         v6 = (seed // 2) % 2 == 1          # every other pair of runs asks over the IPv6 listening socket
         args = ["-f", "-P", "pw"] + ([] if v6 else ["-4"]) + (["-n", "192.0.2.%d" % (seed % 200 + 1)] if seed % 2 else []) + \
-            ["10.0.0.1/24", DOM]
+            ["10.0.0.1/24", "*.example.com" if seed % 3 == 2 else DOM]      # every third server serves a wildcard domain
         w.spawn("S", "S", args)
         w.run_until(t=w.now + 1000)
         got = []
         src = ("fd00::9", 5301) if v6 else ("10.9.2.1", 5301)
         dstaddr = (W.SERVER_IP6, 53) if v6 else (W.SERVER_IP, 53)
         w.endpoints[src] = lambda wd, serial, s, d, data: got.append(data)
-        dl = [b"t", b"example", b"com"]
+        dl = [[b"t", b"my-tun", b"x1", b"a-b-c"][(seed // 3) % 4] if seed % 3 == 2 else b"t", b"example", b"com"]
 
         def case(l):
             return bytes((c ^ 0x20) if 97 <= (c | 0x20) <= 122 and rng.random() < 0.4 else c for c in l)
@@ -73,6 +73,12 @@ def aux_events(seed):
                 if kind == "AuxNS":
                     ev["ndom"] = 3
                 evs.append(ev)
+            # always answered (no action of the specification matches an unanswered one): NS queries for short names
+            # under the domain, A queries for www., and A queries for ns. when the server knows an IPv4 address to give
+            # (query arrived over IPv4, or -n was given)
+            must = (kind == "AuxNS" and k in (0, 1)) or (kind == "AuxA" and (k == 3 or not v6 or seed % 2 == 1))
+            if not got and must:
+                evs.append({"e": kind + "Unanswered", "q": list(q)})
     except (W.KernelDied, W.KernelHang):
         pass
     finally:
